@@ -592,6 +592,62 @@ func nestedMixtures(rng *rand.Rand) []ScalarEstimator {
 	return []ScalarEstimator{mk(-3, -1), mk(1, 3)}
 }
 
+
+// mixture on a summarized data set (value, count): repeated values are stored once
+func discreteMixtureScenario() emScenario {
+	return emScenario{"dmix-poisson-summarized", func(rng *rand.Rand, epsilon float64, maxSteps int, emit func(emev)) (float64, error) {
+		x := countData(rng, 12+rng.Intn(30), 6)
+		var est *scalarEstimator.DiscreteMixtureEstimator
+		hook := generic.EmHook{Value: func(m generic.BasicMixture, i int, l, e float64) {
+			d, _ := est.GetEstimate()
+			emit(emev{E: "hook", I: i, Nan: math.IsNaN(l), Lik: sc(l), Eps: sc(e), Recomp: sc(scalarLL(d, x))})
+		}}
+		var err error
+		est, err = scalarEstimator.NewDiscreteMixtureEstimator([]float64{1 + rng.Float64(), 1 + rng.Float64()}, poissons(rng), epsilon, maxSteps, hook)
+		if err != nil {
+			return 0, err
+		}
+		data := NewDenseFloat64Vector(x)
+		if err := est.SetData(data, data.Dim()); err != nil {
+			return 0, err
+		}
+		if err := est.Estimate(nil, ThreadPool{}); err != nil {
+			return 0, err
+		}
+		d, _ := est.GetEstimate()
+		return scalarLL(d, x), nil
+	}}
+}
+
+// HMM whose state map ties two hidden states to one emission distribution
+func tiedHmmScenario(name string, mk func(rng *rand.Rand) []ScalarEstimator, data func(rng *rand.Rand) []float64) emScenario {
+	return emScenario{name, func(rng *rand.Rand, epsilon float64, maxSteps int, emit func(emev)) (float64, error) {
+		nseq := 1 + rng.Intn(3)
+		xs := make([]ConstVector, nseq)
+		for i := range xs {
+			xs[i] = NewDenseFloat64Vector(data(rng))
+		}
+		var est *vectorEstimator.HmmEstimator
+		hook := generic.BaumWelchHook{Value: func(h generic.BasicHmm, i int, l, e float64) {
+			d, _ := est.GetEstimate()
+			emit(emev{E: "hook", I: i, Nan: math.IsNaN(l), Lik: sc(l), Eps: sc(e), Recomp: sc(vectorLL(d, xs))})
+		}}
+		pi := NewDenseFloat64Vector([]float64{0.5, 0.3, 0.2})
+		a := 0.1 + 0.3*rng.Float64()
+		tr := NewDenseFloat64Matrix([]float64{0.6, 0.4 - a, a, 0.2, 0.5, 0.3, a, 0.5 - a, 0.5}, 3, 3)
+		var err error
+		est, err = vectorEstimator.NewHmmEstimator(pi, tr, []int{0, 1, 1}, nil, nil, mk(rng), epsilon, maxSteps, hook)
+		if err != nil {
+			return 0, err
+		}
+		if err := est.EstimateOnData(xs, nil, ThreadPool{}); err != nil {
+			return 0, err
+		}
+		d, _ := est.GetEstimate()
+		return vectorLL(d, xs), nil
+	}}
+}
+
 func emScenarios() []emScenario {
 	return []emScenario{
 		mixtureScenario("smix-normal", normals, func(r *rand.Rand) []float64 { return normalData(r, 10+r.Intn(30), 2) }),
@@ -603,6 +659,9 @@ func emScenarios() []emScenario {
 		hmmScenario("vhmm-categorical-startfinal", categoricals, func(r *rand.Rand) []float64 { return countData(r, 5+r.Intn(12), 2) }, []int{0}, []int{0}),
 		hmmScenario("vhmm-poisson", poissons, func(r *rand.Rand) []float64 { return countData(r, 5+r.Intn(12), 8) }, nil, nil),
 		vmixScenario(),
+		discreteMixtureScenario(),
+		tiedHmmScenario("vhmm-tied-categorical", categoricals, func(r *rand.Rand) []float64 { return countData(r, 6+r.Intn(12), 2) }),
+		tiedHmmScenario("vhmm-tied-normal", normals, func(r *rand.Rand) []float64 { return normalData(r, 6+r.Intn(12), 2) }),
 		hmmScenario("vhmm-nested-mixture", nestedMixtures, func(r *rand.Rand) []float64 { return normalData(r, 6+r.Intn(12), 2) }, nil, nil),
 	}
 }
